@@ -2312,8 +2312,10 @@ class MapEnumeration(NativeCheck):
                   "instance, compared per cycle (Value::equals on the output delta) with the per-key oracle.  quick: every history "
                   "of 3 cycles over 3 keys (per key and cycle nothing / set / remove-if-live: 19 683), the sparse-slot family for "
                   "N = 70 and 130 keys (all but a subset of {0, 63, 64, N-1} removed, every subset of the survivors ticking, then "
-                  "new keys: 2 x 80), 2 000 random histories of 4 cycles over 6 keys; thorough: 4 cycles over 3 keys (531 441, "
-                  "16 shards), 50 000 random histories of 6 cycles")
+                  "new keys: 2 x 80), 2 000 random histories of 4 cycles over 6 keys; explicit __keys__ next to one multiplexed dictionary "
+                  "over 2 keys (per key and cycle: key-set op x dictionary op): every history of 2 cycles (6 561) and 3 000 random ones of "
+                  "4 cycles, empty ticks not compared; thorough: 4 cycles over 3 keys (531 441, "
+                  "16 shards), 50 000 random histories of 6 cycles, explicit keys: every history of 3 cycles (531 441) and 30 000 of 5")
     functions = ("map_node.cpp: map_evaluate_impl / map_reconcile_keys / prepare_map_evaluation_slots / "
                  "materialize_map_evaluation_slots / create_entry_at_slot / remove_entry_at_slot (whole node)",
                  "higher_order_impl.h: map_ wiring", "nested graph child evaluation and output forwarding")
@@ -2322,9 +2324,11 @@ class MapEnumeration(NativeCheck):
         if tier == "thorough":
             return [(["small", "4"], {"SHARD": "%d/16" % i}) for i in range(16)] + [(["random", "6", "50000", "9"], {}),
                                                                                     (["sparse", "70"], {}), (["sparse", "130"], {}),
-                                                                                    (["sparse", "200"], {})]
+                                                                                    (["sparse", "200"], {})] + \
+                [(["keys", "3"], {"SHARD": "%d/16" % i}) for i in range(16)] + [(["keys", "5", "30000", "5"], {})]
         return [(["small", "3"], {"SHARD": "%d/4" % i}) for i in range(4)] + [(["sparse", "70"], {}), (["sparse", "130"], {}),
-                                                                             (["random", "4", "2000", "3"], {})]
+                                                                             (["random", "4", "2000", "3"], {})] + \
+            [(["keys", "2"], {"SHARD": "%d/2" % i}) for i in range(2)] + [(["keys", "4", "3000", "11"], {})]
 
 
 NATIVE = globals().get("NATIVE", []) + [MapEnumeration]
